@@ -232,6 +232,8 @@ class RealHistory:
         self.budget = budget
         self.obs = []
         self.code_cache = {}      # source text -> compiled Python text (threaded runs precompile in the main thread)
+        self.saved = []           # (step index, values collected with get_value at an answer, snapshot after the query ended)
+        self.unstable = []
 
     def terms(self, ts):
         return [build_real(self.yp, t, self.vmap) for t in ts]
@@ -351,15 +353,22 @@ class RealHistory:
 
             def f():
                 out = []
+                kept = []
                 g = yp.query(st[1], args)
                 if lim != 0:
                     for _ in g:
                         out.append(snap_real(E, args))
+                        if len(kept) < 4:
+                            # the documented idiom: collect get_value() results while enumerating
+                            kept.append([E.get_value(a) for a in args])
                         if lim is not None and len(out) >= lim:
                             break
                         if len(out) >= MAXANS + 5:
                             break
                 g.close()
+                del g
+                for vals in kept:
+                    self.saved.append((len(self.obs), vals, snap_real(E, vals)))
                 return out
             o = self.guarded(f)
         elif k == 'dump':
@@ -380,6 +389,15 @@ class RealHistory:
         self.obs.append(o)
         return o
 
+    def check_saved(self):
+        """answers collected earlier must still denote the same terms (C15, C13): nothing a later
+        operation does may change them"""
+        for step, vals, snap in self.saved:
+            now = snap_real(self.E, vals)
+            if now != snap:
+                self.unstable.append({'collected_at_step': step, 'then': snap, 'now': now})
+        return self.unstable
+
     def finish(self):
         for g, _ in self.qs.values():
             try:
@@ -392,13 +410,15 @@ class RealHistory:
         self.held = {}
 
 
-def run_real(real, history, budget=3000000):
+def run_real(real, history, budget=3000000, unstable=None):
     h = RealHistory(real, budget)
     try:
         for st in history:
             h.step(st)
     finally:
         h.finish()
+    if unstable is not None:
+        unstable.extend(h.check_saved())
     return h.obs
 
 
@@ -411,6 +431,16 @@ def normalise(obs):
             return {k: n(v) for k, v in x.items()}
         return x
     return n(obs)
+
+
+def anonymise_obs(o):
+    if isinstance(o, list):
+        if len(o) == 2 and o[0] == 'v' and isinstance(o[1], int):
+            return ['v', '_']
+        return [anonymise_obs(x) for x in o]
+    if isinstance(o, dict):
+        return {k: anonymise_obs(v) for k, v in o.items()}
+    return o
 
 
 def uniq_history(history):
@@ -444,10 +474,15 @@ def compare_history(real, history, budgetA=60000):
     na, nb = normalise(oa), normalise(ob)
     if na != nb:
         return {'status': 'discard', 'reason': 'oracle_disagreement', 'A': na, 'B': nb}
-    if 'findall_nonground' in ra.flags:
-        return {'status': 'discard', 'reason': 'findall_nonground'}
     budget = 20000 * ra.steps + 2000000
-    orr = normalise(run_real(real, history, budget))
+    unstable = []
+    orr = normalise(run_real(real, history, budget, unstable))
+    if unstable:
+        return {'status': 'violation', 'kind': 'collected_answer_changed_later', 'step': unstable[0]['collected_at_step'],
+                'detail': normalise(unstable[0]), 'obs': na, 'refA': ra}
+    if 'findall_nonground' in ra.flags:
+        # instances with unbound variables: sharing vs copying of those variables is not judged
+        na, orr = anonymise_obs(na), anonymise_obs(orr)
     if orr == na:
         return {'status': 'ok', 'obs': na, 'refA': ra}
     i = 0
